@@ -36,7 +36,7 @@ PROPS = {
         "assumptions": ROUNDTRIP_ASSUME,
         "jobs": {
             "quick": [{"test": "TestC01", "shards": 8, "checks": 12000, "timeout": 900}, {"test": "TestC01Haul", "shards": 1, "checks": 1, "timeout": 900, "shrinktime": "1s"}],
-            "thorough": [{"test": "TestC01", "shards": 16, "checks": 160000, "timeout": 3000}, {"test": "TestC01Haul", "shards": 3, "checks": 3, "timeout": 3000, "shrinktime": "1s"}],
+            "thorough": [{"test": "TestC01", "shards": 16, "checks": 160000, "timeout": 3000}, {"test": "TestC01Haul", "shards": 3, "checks": 3, "timeout": 3000, "shrinktime": "1s"}, {"test": "FuzzOTLP", "shards": 1, "checks": 0, "rapid": False, "fuzztime": "150s", "parallel": 6, "timeout": 1500}],
         },
     },
     "C02": {
@@ -48,7 +48,7 @@ PROPS = {
         "assumptions": ROUNDTRIP_ASSUME,
         "jobs": {
             "quick": [{"test": "TestC02", "shards": 8, "checks": 12000, "timeout": 900}, {"test": "TestC02Haul", "shards": 1, "checks": 1, "timeout": 900, "shrinktime": "1s"}],
-            "thorough": [{"test": "TestC02", "shards": 16, "checks": 160000, "timeout": 3000}, {"test": "TestC02Haul", "shards": 3, "checks": 3, "timeout": 3000, "shrinktime": "1s"}],
+            "thorough": [{"test": "TestC02", "shards": 16, "checks": 160000, "timeout": 3000}, {"test": "TestC02Haul", "shards": 3, "checks": 3, "timeout": 3000, "shrinktime": "1s"}, {"test": "FuzzOTLP", "shards": 1, "checks": 0, "rapid": False, "fuzztime": "150s", "parallel": 6, "timeout": 1500}],
         },
     },
     "C03": {
@@ -60,7 +60,7 @@ PROPS = {
         "assumptions": ROUNDTRIP_ASSUME,
         "jobs": {
             "quick": [{"test": "TestC03", "shards": 8, "checks": 12000, "timeout": 900}, {"test": "TestC03Haul", "shards": 1, "checks": 1, "timeout": 900, "shrinktime": "1s"}],
-            "thorough": [{"test": "TestC03", "shards": 16, "checks": 160000, "timeout": 3000}, {"test": "TestC03Haul", "shards": 3, "checks": 3, "timeout": 3000, "shrinktime": "1s"}],
+            "thorough": [{"test": "TestC03", "shards": 16, "checks": 160000, "timeout": 3000}, {"test": "TestC03Haul", "shards": 3, "checks": 3, "timeout": 3000, "shrinktime": "1s"}, {"test": "FuzzOTLP", "shards": 1, "checks": 0, "rapid": False, "fuzztime": "150s", "parallel": 6, "timeout": 1500}],
         },
     },
 }
@@ -83,7 +83,7 @@ PROPS.update({
                                         "known finding dict-reset-trailing-nul (arrow-go ApproxEqual strips trailing NULs when the IPC writer compares dictionaries) is probed by TestKnownC04 with its specific history; the generators cannot produce its predicate (ramp strings never end in NUL; a reset needs >=128 matching entries)"],
         "jobs": {
             "quick": [{"test": "TestC04", "shards": 8, "checks": 3200, "timeout": 900}],
-            "thorough": [{"test": "TestC04", "shards": 16, "checks": 48000, "timeout": 3000}],
+            "thorough": [{"test": "TestC04", "shards": 16, "checks": 48000, "timeout": 3000}, {"test": "FuzzOTLP", "shards": 1, "checks": 0, "rapid": False, "fuzztime": "150s", "parallel": 6, "timeout": 1500}],
         },
     },
     "C08": {
@@ -95,7 +95,7 @@ PROPS.update({
         "assumptions": OPTION_ASSUME + ["a panic anywhere below Producer.BatchArrowRecordsFrom*/Close is caught by recover in the harness adapter", "for exactly 65,536 parents either outcome (batch or error) is accepted"],
         "jobs": {
             "quick": [{"test": "TestC08", "shards": 8, "checks": 6400, "timeout": 900}, {"test": "TestC08Giants", "shards": 6, "checks": 6, "timeout": 900}],
-            "thorough": [{"test": "TestC08", "shards": 12, "checks": 60000, "timeout": 3000}, {"test": "TestC08Giants", "shards": 6, "checks": 48, "timeout": 3000}],
+            "thorough": [{"test": "TestC08", "shards": 12, "checks": 60000, "timeout": 3000}, {"test": "TestC08Giants", "shards": 6, "checks": 48, "timeout": 3000}, {"test": "FuzzOTLP", "shards": 1, "checks": 0, "rapid": False, "fuzztime": "150s", "parallel": 6, "timeout": 1500}],
         },
     },
     "C12": {
@@ -131,7 +131,7 @@ PROPS.update({
         "assumptions": OPTION_ASSUME + ["pdata's protobuf marshalling is order-preserving, so byte equality is the right comparison", "after a producer panic (C08's verdict) the allocator balance is not judged"],
         "jobs": {
             "quick": [{"test": "TestC15", "shards": 8, "checks": 4800, "timeout": 900}, {"test": "TestC15Refused", "shards": 2, "checks": 16, "timeout": 900}],
-            "thorough": [{"test": "TestC15", "shards": 14, "checks": 56000, "timeout": 3000}, {"test": "TestC15Refused", "shards": 2, "checks": 200, "timeout": 3000}],
+            "thorough": [{"test": "TestC15", "shards": 14, "checks": 56000, "timeout": 3000}, {"test": "TestC15Refused", "shards": 2, "checks": 200, "timeout": 3000}, {"test": "FuzzOTLP", "shards": 1, "checks": 0, "rapid": False, "fuzztime": "150s", "parallel": 6, "timeout": 1500}],
         },
     },
 })
